@@ -61,7 +61,7 @@ func canaryDigests() map[string]string {
 			add("MarshalSize", kind, canaryCall(func() string { return fmt.Sprint(p.MarshalSize()) }))
 			add("DestinationSSRC", kind, canaryCall(func() string { return fmt.Sprint(p.DestinationSSRC()) }))
 			if s, ok := p.(fmt.Stringer); ok {
-				add("String", kind, canaryCall(func() string { return stripAddrs(s.String()) }))
+				add("String", kind, canaryCall(func() string { return stripAddrs(normAddrs(s.String(), collectAddrs(p))) }))
 			}
 			if enc != nil {
 				in := append([]byte(nil), enc...)
